@@ -174,8 +174,8 @@ theorem reach_inv19 {m : InstMsg} {s : State} (h : instantiate m = .ok s) (ops :
 /-- `migrate` written with the `rebuild` loop of the lemma file. -/
 theorem migrate_ok {s s' : State} (h : migrate s = .ok s') :
     s'.allow = s.allow ∧
-    ((verLt (s.version.major, s.version.minor, s.version.patch) (0, 14, 0) = true ∧ s'.allowSp = rebuild s.allow s.allowSp)
-     ∨ (verLt (s.version.major, s.version.minor, s.version.patch) (0, 14, 0) = false ∧ s'.allowSp = s.allowSp)) := by
+    ((verLt s.version.key (relKey (0, 14, 0)) = true ∧ s'.allowSp = rebuild s.allow s.allowSp)
+     ∨ (verLt s.version.key (relKey (0, 14, 0)) = false ∧ s'.allowSp = s.allowSp)) := by
   unfold migrate at h
   simp at h
   obtain ⟨_, _, h⟩ := h
@@ -191,7 +191,7 @@ theorem migrate_ok {s s' : State} (h : migrate s = .ok s') :
 storage map, distinct keys in the owner map) produces a spender map that agrees with the owner map on
 every pair. -/
 theorem migrate_pre014_establishes {s s' : State} (hsp : s.allowSp = []) (hnd : AMap.NodupKeys s.allow)
-    (hv : verLt (s.version.major, s.version.minor, s.version.patch) (0, 14, 0) = true)
+    (hv : verLt s.version.key (relKey (0, 14, 0)) = true)
     (h : migrate s = .ok s') : Inv19 s' ∧ Nodup19 s' := by
   obtain ⟨e1, ⟨_, e2⟩ | ⟨hv', _⟩⟩ := migrate_ok h
   · unfold Inv19 Nodup19
@@ -201,7 +201,7 @@ theorem migrate_pre014_establishes {s s' : State} (hsp : s.allowSp = []) (hnd : 
 
 /-- `migrate` from 0.14.0 or later does not touch the allowance maps. -/
 theorem migrate_no_rebuild_frame {s s' : State}
-    (hv : verLt (s.version.major, s.version.minor, s.version.patch) (0, 14, 0) = false)
+    (hv : verLt s.version.key (relKey (0, 14, 0)) = false)
     (h : migrate s = .ok s') : s'.allow = s.allow ∧ s'.allowSp = s.allowSp := by
   obtain ⟨e1, ⟨hv', _⟩ | ⟨_, e2⟩⟩ := migrate_ok h
   · rw [hv] at hv'; cases hv'
@@ -220,7 +220,7 @@ theorem migrate_preserves {s s' : State} (hi : Inv19 s) (hn : Nodup19 s) (h : mi
 
 /-- After a pre-0.14 migration, every later history keeps the views in agreement. -/
 theorem reach_inv19_migrated {s s' : State} (hsp : s.allowSp = []) (hnd : AMap.NodupKeys s.allow)
-    (hv : verLt (s.version.major, s.version.minor, s.version.patch) (0, 14, 0) = true)
+    (hv : verLt s.version.key (relKey (0, 14, 0)) = true)
     (h : migrate s = .ok s') (ops : List (Block × Addr × Msg)) : Inv19 (run s' ops) ∧ Nodup19 (run s' ops) :=
   run_inv19 (migrate_pre014_establishes hsp hnd hv h) ops
 
@@ -229,7 +229,7 @@ that it has no entry whose mirrored key is absent from the owner map (stale entr
 rebuild); entries that are present but different are overwritten. -/
 theorem migrate_pre014_establishes_of_no_stale {s s' : State}
     (hsp : ∀ o sp, s.allow.get? (o, sp) = none → s.allowSp.get? (sp, o) = none) (hnd : Nodup19 s)
-    (hv : verLt (s.version.major, s.version.minor, s.version.patch) (0, 14, 0) = true)
+    (hv : verLt s.version.key (relKey (0, 14, 0)) = true)
     (h : migrate s = .ok s') : Inv19 s' ∧ Nodup19 s' := by
   obtain ⟨e1, ⟨_, e2⟩ | ⟨hv', _⟩⟩ := migrate_ok h
   · unfold Inv19 Nodup19
@@ -281,7 +281,7 @@ theorem reach_inv19_mixed {m : InstMsg} {s : State} (h : instantiate m = .ok s) 
 
 /-- … and the same after migrating a pre-0.14 state without spender map. -/
 theorem reach_inv19_migrated_mixed {s s' : State} (hsp : s.allowSp = []) (hnd : AMap.NodupKeys s.allow)
-    (hv : verLt (s.version.major, s.version.minor, s.version.patch) (0, 14, 0) = true)
+    (hv : verLt s.version.key (relKey (0, 14, 0)) = true)
     (h : migrate s = .ok s') (ops : List Op) : Inv19 (runOps s' ops) ∧ Nodup19 (runOps s' ops) :=
   runOps_inv19 (migrate_pre014_establishes hsp hnd hv h) ops
 
@@ -409,7 +409,7 @@ map (any allowance table with distinct keys — not only those an old contract c
 any history of execute and further `migrate` calls: the three paged/point views agree as in
 `paged_views_agree`. -/
 theorem paged_views_agree_migrated {s s' : State} (hsp : s.allowSp = []) (hnd : AMap.NodupKeys s.allow)
-    (hv : verLt (s.version.major, s.version.minor, s.version.patch) (0, 14, 0) = true)
+    (hv : verLt s.version.key (relKey (0, 14, 0)) = true)
     (h : migrate s = .ok s') (ops : List Op)
     (o sp : AddrArg) (ho : o.valid = true) (hs : sp.valid = true) (l1 l2 : Option Nat)
     (h1 : l1 ≠ some 0) (h2 : l2 ≠ some 0) (a : Allowance) :
@@ -476,34 +476,34 @@ this contract and its version is not newer than the code's version (2.0.0).  In 
 token of this contract can be migrated. -/
 theorem migrate_ok_iff (s : State) :
     (∃ s', migrate s = .ok s') ↔
-      (s.version.name = CONTRACT_NAME ∧ verLt CONTRACT_VERSION (s.version.major, s.version.minor, s.version.patch) = false) := by
+      (s.version.name = CONTRACT_NAME ∧ verLt (relKey CONTRACT_VERSION) s.version.key = false) := by
   unfold migrate
   constructor
   · rintro ⟨s', h⟩
     simp at h
     exact ⟨h.1, h.2.1⟩
   · rintro ⟨h1, h2⟩
-    by_cases hv : verLt (s.version.major, s.version.minor, s.version.patch) (0, 14, 0) = true
+    by_cases hv : verLt s.version.key (relKey (0, 14, 0)) = true
     · exact ⟨_, by simp [h1, h2, hv]; rfl⟩
     · exact ⟨_, by simp [h1, h2, hv]; rfl⟩
 
 /-- A version below 0.14.0 is below 2.0.0: a pre-0.14 token of this contract is never refused. -/
 theorem migrate_pre014_succeeds {s : State} (hname : s.version.name = CONTRACT_NAME)
-    (hv : verLt (s.version.major, s.version.minor, s.version.patch) (0, 14, 0) = true) :
+    (hv : verLt s.version.key (relKey (0, 14, 0)) = true) :
     ∃ s', migrate s = .ok s' := by
   rw [migrate_ok_iff]
   refine ⟨hname, ?_⟩
-  simp [verLt, CONTRACT_VERSION] at hv ⊢
-  obtain ⟨h0, _⟩ := hv
-  rw [h0]
-  exact ⟨by simp, fun h => by cases h⟩
+  unfold verLt relKey Version.key at hv
+  simp only [Bool.or_eq_true, Bool.and_eq_true, decide_eq_true_eq, beq_iff_eq] at hv
+  have hmaj : s.version.major = 0 := by omega
+  simp [verLt, CONTRACT_VERSION, relKey, Version.key, hmaj]
 
 /-- **C19, migration clause, content**: a successful migration of a pre-0.14 state with distinct keys
 neither loses nor alters an allowance: `ALLOWANCES` is untouched, the rebuilt `ALLOWANCES_SPENDER` holds under
 `(sp, o)` exactly the entry of `(o, sp)` (or, where `ALLOWANCES` has none, what was there before), and
 balances, supply and minter are untouched. -/
 theorem migrate_pre014_content {s s' : State} (hnd : AMap.NodupKeys s.allow)
-    (hv : verLt (s.version.major, s.version.minor, s.version.patch) (0, 14, 0) = true)
+    (hv : verLt s.version.key (relKey (0, 14, 0)) = true)
     (h : migrate s = .ok s') :
     s'.allow = s.allow ∧ s'.balances = s.balances ∧ s'.supply = s.supply ∧ s'.mint = s.mint
     ∧ ∀ o sp, s'.allowSp.get? (sp, o) = (match s.allow.get? (o, sp) with
@@ -527,7 +527,7 @@ def exInst : InstMsg :=
 
 def exState : State :=
   { supply := 150, mint := none, balances := [("alice", 100), ("bob", 50)],
-    allow := [], allowSp := [], version := ⟨CONTRACT_NAME, 2, 0, 0⟩ }
+    allow := [], allowSp := [], version := ⟨CONTRACT_NAME, 2, 0, 0, none⟩ }
 
 def exBlk : Block := ⟨100, 5000⟩
 
@@ -570,12 +570,12 @@ example : Inv19 (run exState exOps) ∧ Nodup19 (run exState exOps) := reach_inv
 def exLegacy : State :=
   { supply := 150, mint := none, balances := [("alice", 100), ("bob", 50)],
     allow := [(("alice", "carol"), ⟨20, .atHeight 200⟩), (("bob", "carol"), ⟨30, .never⟩), (("alice", "bob"), ⟨0, .atTime 1⟩)],
-    allowSp := [], version := ⟨CONTRACT_NAME, 0, 13, 4⟩ }
+    allowSp := [], version := ⟨CONTRACT_NAME, 0, 13, 4, none⟩ }
 
 def exMigrated : State :=
   { exLegacy with
     allowSp := [(("carol", "alice"), ⟨20, .atHeight 200⟩), (("carol", "bob"), ⟨30, .never⟩), (("bob", "alice"), ⟨0, .atTime 1⟩)],
-    version := ⟨CONTRACT_NAME, 2, 0, 0⟩ }
+    version := ⟨CONTRACT_NAME, 2, 0, 0, none⟩ }
 
 /-- The hypotheses of `migrate_pre014_establishes` hold for `exLegacy`, and the views disagree before
 the migration (so the theorem is not about an invariant that holds anyway). -/
@@ -584,7 +584,7 @@ theorem exLegacy_nodup : AMap.NodupKeys exLegacy.allow := by
   decide
 
 example : exLegacy.allowSp = [] ∧ AMap.NodupKeys exLegacy.allow
-    ∧ verLt (exLegacy.version.major, exLegacy.version.minor, exLegacy.version.patch) (0, 14, 0) = true :=
+    ∧ verLt exLegacy.version.key (relKey (0, 14, 0)) = true :=
   ⟨rfl, exLegacy_nodup, by decide⟩
 example : migrate exLegacy = .ok exMigrated := by rfl
 example : ¬ Inv19 exLegacy := fun h => absurd (h "alice" "carol") (by decide)
@@ -593,9 +593,19 @@ example : Inv19 exMigrated ∧ Nodup19 exMigrated :=
 
 /-- Migration is refused from a newer version and for another contract; from 1.1.0 it succeeds
 without rebuilding. -/
-example : (migrate { exLegacy with version := ⟨CONTRACT_NAME, 2, 0, 1⟩ }).isOk = false
-    ∧ (migrate { exLegacy with version := ⟨"crates.io:other", 0, 13, 4⟩ }).isOk = false
-    ∧ (migrate { exMigrated with version := ⟨CONTRACT_NAME, 1, 1, 0⟩ }).isOk = true := by decide
+example : (migrate { exLegacy with version := ⟨CONTRACT_NAME, 2, 0, 1, none⟩ }).isOk = false
+    ∧ (migrate { exLegacy with version := ⟨"crates.io:other", 0, 13, 4, none⟩ }).isOk = false
+    ∧ (migrate { exMigrated with version := ⟨CONTRACT_NAME, 1, 1, 0, none⟩ }).isOk = true := by decide
+
+/-- Pre-release tags: `0.13.0-rc.1` and `0.14.0-beta` are below 0.14.0 (the spender map is rebuilt), `2.0.0-beta` is
+below the code's 2.0.0 (accepted, no rebuild, version bumped), and no pre-release of a later version is accepted. -/
+example : verLt (⟨CONTRACT_NAME, 0, 13, 0, some "rc.1"⟩ : Version).key (relKey (0, 14, 0)) = true
+    ∧ verLt (⟨CONTRACT_NAME, 0, 14, 0, some "beta"⟩ : Version).key (relKey (0, 14, 0)) = true
+    ∧ verLt (⟨CONTRACT_NAME, 0, 14, 0, none⟩ : Version).key (relKey (0, 14, 0)) = false
+    ∧ (match migrate { exMigrated with version := ⟨CONTRACT_NAME, 2, 0, 0, some "beta"⟩ } with
+        | .ok s => decide (s.version = ⟨CONTRACT_NAME, 2, 0, 0, none⟩ ∧ s.allowSp = exMigrated.allowSp)
+        | .error _ => false) = true
+    ∧ (migrate { exMigrated with version := ⟨CONTRACT_NAME, 2, 0, 1, some "alpha"⟩ }).isOk = false := by decide
 
 /-- The distinct-keys hypothesis of `migrate_pre014_establishes` cannot be dropped in the model: an
 association list with a repeated key (impossible in a storage map) is looked up first-match but
@@ -669,7 +679,7 @@ example : ("bob", ⟨31, .atHeight 101⟩) ∈ spenderListing (runOps exMigrated
 
 /-- `migrate_ok_iff` / `migrate_pre014_succeeds` / `migrate_pre014_content` on the legacy state. -/
 example : exLegacy.version.name = CONTRACT_NAME
-    ∧ verLt CONTRACT_VERSION (exLegacy.version.major, exLegacy.version.minor, exLegacy.version.patch) = false := by decide
+    ∧ verLt (relKey CONTRACT_VERSION) exLegacy.version.key = false := by decide
 example : ∃ s', migrate exLegacy = .ok s' := migrate_pre014_succeeds rfl (by decide)
 example : exMigrated.allowSp.get? ("carol", "bob") = some ⟨30, .never⟩ ∧ exMigrated.allow = exLegacy.allow := by
   obtain ⟨h1, _, _, _, h5⟩ := migrate_pre014_content (s := exLegacy) (s' := exMigrated) exLegacy_nodup (by decide) rfl
